@@ -57,6 +57,12 @@ def t3(rep, tier, seed):
             values = [(it, (i * rot + 3) % nb + 1) for i, it in enumerate(items)]
             ops = [["new", "a1", nb]] + [["add", "a1", items[i], i] for i in range(nb)] + [["sort", "a1"], ["copy", "a1", "a2"], ["add", "a2", items[0], nb - 1], ["sort", "a2"], ["sort", "a1"]]
             many.append({"ops": ops, "values": values})
+    # long bins (code paths that only start after many items in ONE bin): 17..40 named items with values unrelated to the names into one bin
+    for n in ((17, 33) if tier == "quick" else (16, 17, 32, 33, 40)):
+        items = [f"z{i}" for i in range(n)]
+        values = [(it, 10 + (7 * i) % 13) for i, it in enumerate(items)]
+        ops = [["new", "a1", 3]] + [["add", "a1", items[i], 0 if i % 8 else (i // 8) % 3] for i in range(n)] + [["copy", "a1", "a2"], ["sort", "a1"], ["add", "a2", items[0], 1]]
+        many.append({"ops": ops, "values": values})
     for keeps, name in ((False, "BinnerKeepingSums"), (True, "BinnerKeepingContents")):
         dom = [dict(d, keeps=keeps) for d in ex + rnd + many]
         rep.add(H.run_case(f"C16/T3/{name}/operation-sequences", f"prtpy/binners.py::{name}", T.c16_case, dom,
